@@ -291,6 +291,11 @@ func genQuery(r *hlib.Rand, depth int) string {
 }
 
 func (h) Gen(r *hlib.Rand, tier string, scale int, emit func(string)) {
+	// hlib.NewRand(seed) starts splitmix64 at seed*gamma + c and every draw adds gamma: the streams of seeds 1, 2, 3 are the SAME
+	// sequence shifted by one draw, and generators with a data-dependent number of draws per item re-synchronise after a few
+	// hundred lines (measured: from the `score` lines on the scripts of seeds 1, 2, 3 were identical). The phase-2 streams
+	// therefore draw from a second generator seeded with a fully mixed value, which differs unrelatedly between seeds.
+	r2 := hlib.NewRand(r.U64())
 	nRand := 1500 * scale
 	nSearch := 160 * scale
 	if tier == "thorough" {
@@ -431,8 +436,8 @@ func (h) Gen(r *hlib.Rand, tier string, scale int, emit func(string)) {
 		emit(fmt.Sprintf("normrt %d %d", c-40, c+40))
 	}
 	for i := 0; i < 4*scale; i++ {
-		lo := logUniform(r, 33)
-		emit(fmt.Sprintf("normrt %d %d", lo, lo+uint64(r.Intn(5000))))
+		lo := logUniform(r2, 33)
+		emit(fmt.Sprintf("normrt %d %d", lo, lo+uint64(r2.Intn(5000))))
 	}
 	// real searches on adversarially built indexes (deletions of documents without the term, updates, merges, several
 	// segments, both ice versions, custom similarities incl. b = 1, composite field) with per-segment statistics recorded
@@ -440,13 +445,20 @@ func (h) Gen(r *hlib.Rand, tier string, scale int, emit func(string)) {
 	if tier == "thorough" {
 		nD = 900 * scale
 	}
-	genD(r, nD, emit)
+	genD(r2, nD, emit)
 	// scored multi-term queries (prefix / wildcard / regexp / fuzzy / term range) over 3-5 segments that share terms
 	nM := 12 * scale
 	if tier == "thorough" {
 		nM = 300 * scale
 	}
-	genM(r, nM, emit)
+	genM(r2, nM, emit)
+	// disjunctions of more than 10 searchers (11-16 should clauses, prefix / wildcard clauses expanding to 11+ terms) driven by
+	// Advance under a must clause whose term is missing from some documents of every segment
+	nH := 10 * scale
+	if tier == "thorough" {
+		nH = 250 * scale
+	}
+	genH(r2, nH, emit)
 }
 
 // ------------------------------------------------------------------------------------------------ execution
@@ -457,7 +469,9 @@ func normOf(sim *similarity.BM25Similarity, dl uint64) float64 {
 
 // ---- queries
 
+// a leaf is a term query, or (multi = 'P' / 'W') a prefix / wildcard query over `word`
 type qnode struct {
+	multi          byte
 	term           bool
 	field, word    string
 	boost          float64
@@ -472,6 +486,10 @@ func parseQuery(s string) (*qnode, string) {
 		p := strings.SplitN(rest, ",", 3)
 		boost := p[2][:16]
 		return &qnode{term: true, field: p[0], word: p[1], boost: pf(boost)}, p[2][16:]
+	}
+	if strings.HasPrefix(s, "P,") || strings.HasPrefix(s, "W,") {
+		p := strings.SplitN(s[2:], ",", 3)
+		return &qnode{term: true, multi: s[0], field: p[0], word: p[1], boost: pf(p[2][:16])}, p[2][16:]
 	}
 	if strings.HasPrefix(s, "B,") {
 		rest := s[2:]
@@ -507,6 +525,12 @@ func parseList(s string) ([]*qnode, string) {
 
 func build(q *qnode) bluge.Query {
 	if q.term {
+		switch q.multi {
+		case 'P':
+			return bluge.NewPrefixQuery(q.word).SetField(q.field).SetBoost(q.boost)
+		case 'W':
+			return bluge.NewWildcardQuery(q.word).SetField(q.field).SetBoost(q.boost)
+		}
 		return bluge.NewTermQuery(q.word).SetField(q.field).SetBoost(q.boost)
 	}
 	b := bluge.NewBooleanQuery()
